@@ -736,8 +736,8 @@ impl Check for C06 {
 
     fn runs(&self, tier: Tier) -> u64 {
         match tier {
-            Tier::Quick => 1_000_000,
-            Tier::Thorough => 60_000_000,
+            Tier::Quick => 4_000_000,
+            Tier::Thorough => 400_000_000,
         }
     }
 
